@@ -54,4 +54,163 @@ theorem daysBeforeYear_eq_C (a : Int) : daysBeforeYear a = daysBeforeYearC a := 
 theorem yearLen_pos (a : Int) : 365 ≤ yearLen a ∧ yearLen a ≤ 366 := by
   unfold yearLen; split <;> omega
 
+theorem daysBeforeMonth_eq_C (a m : Int) (h1 : 1 ≤ m) (h12 : m ≤ 12) :
+    daysBeforeMonth a m = daysBeforeMonthC a m := by
+  have hm : m = 1 ∨ m = 2 ∨ m = 3 ∨ m = 4 ∨ m = 5 ∨ m = 6 ∨ m = 7 ∨ m = 8 ∨ m = 9 ∨ m = 10 ∨ m = 11 ∨ m = 12 := by omega
+  rcases hm with rfl | rfl | rfl | rfl | rfl | rfl | rfl | rfl | rfl | rfl | rfl | rfl <;>
+    simp [daysBeforeMonth, sumMonths, monthLen, daysBeforeMonthC] <;> split <;> omega
+
+theorem monthLen_pos (a m : Int) : 28 ≤ monthLen a m ∧ monthLen a m ≤ 31 := by
+  unfold monthLen; split <;> (try split) <;> omega
+
+/-- end of December: the months of a year add up to its length -/
+theorem daysBeforeMonthC_13 (a : Int) : daysBeforeMonthC a 12 + monthLen a 12 = yearLen a := by
+  simp [daysBeforeMonthC, monthLen, yearLen]; split <;> omega
+
+theorem daysBeforeMonthC_succ (a m : Int) (h1 : 1 ≤ m) (h12 : m < 12) :
+    daysBeforeMonthC a (m + 1) = daysBeforeMonthC a m + monthLen a m := by
+  have hm : m = 1 ∨ m = 2 ∨ m = 3 ∨ m = 4 ∨ m = 5 ∨ m = 6 ∨ m = 7 ∨ m = 8 ∨ m = 9 ∨ m = 10 ∨ m = 11 := by omega
+  rcases hm with rfl | rfl | rfl | rfl | rfl | rfl | rfl | rfl | rfl | rfl | rfl <;>
+    simp [monthLen, daysBeforeMonthC] <;> split <;> omega
+
+theorem yearOfDay_spec (n : Int) :
+    daysBeforeYearC (yearOfDay n) ≤ n ∧ n < daysBeforeYearC (yearOfDay n + 1) := by
+  unfold yearOfDay
+  simp only []
+  split
+  · rename_i h
+    constructor
+    · exact h
+    · unfold daysBeforeYearC at *; omega
+  · rename_i h
+    split
+    · rename_i h2
+      exact ⟨h2, by omega⟩
+    · rename_i h2
+      constructor
+      · unfold daysBeforeYearC at *; omega
+      · have : n * 400 / 146097 + 1 - 1 + 1 = n * 400 / 146097 + 1 := by omega
+        rw [this]; omega
+
+theorem daysBeforeYearC_mono {a b : Int} (h : a ≤ b) : daysBeforeYearC a ≤ daysBeforeYearC b := by
+  unfold daysBeforeYearC; omega
+
+theorem daysBeforeMonthC_nonneg (a m : Int) : 0 ≤ daysBeforeMonthC a m := by
+  unfold daysBeforeMonthC; simp only []; repeat' split
+  all_goals omega
+
+theorem daysBeforeMonthC_le (a m : Int) : daysBeforeMonthC a m ≤ 335 := by
+  unfold daysBeforeMonthC; simp only []; repeat' split
+  all_goals omega
+
+theorem monthOfDoy_spec (a : Int) (k : Nat) : ∀ (m r : Int), m + k = 12 → 1 ≤ m → 0 ≤ r →
+    daysBeforeMonthC a m + r < yearLen a →
+    m ≤ (monthOfDoy a k m r).1 ∧ (monthOfDoy a k m r).1 ≤ 12 ∧ 1 ≤ (monthOfDoy a k m r).2 ∧
+    (monthOfDoy a k m r).2 ≤ monthLen a (monthOfDoy a k m r).1 ∧
+    daysBeforeMonthC a (monthOfDoy a k m r).1 + (monthOfDoy a k m r).2 - 1 = daysBeforeMonthC a m + r := by
+  induction k with
+  | zero =>
+    intro m r hm h1 hr hlt
+    have : m = 12 := by omega
+    subst this
+    have := daysBeforeMonthC_13 a
+    simp only [monthOfDoy]
+    omega
+  | succ k ih =>
+    intro m r hm h1 hr hlt
+    simp only [monthOfDoy]
+    split
+    · rename_i h
+      simp only []
+      omega
+    · rename_i h
+      have hs := daysBeforeMonthC_succ a m h1 (by omega)
+      have := ih (m + 1) (r - monthLen a m) (by omega) (by omega) (by omega) (by omega)
+      omega
+
+/-- `civil` inverts the closed-form day number and yields a calendar date — every `Int` day -/
+theorem civil_spec (n : Int) :
+    1 ≤ (civil n).2.1 ∧ (civil n).2.1 ≤ 12 ∧ 1 ≤ (civil n).2.2 ∧
+    (civil n).2.2 ≤ monthLen (civil n).1 (civil n).2.1 ∧
+    dayNumC (civil n).1 (civil n).2.1 (civil n).2.2 = n := by
+  have hy := yearOfDay_spec n
+  have hs := daysBeforeYearC_succ (yearOfDay n)
+  have h0 : daysBeforeMonthC (yearOfDay n) 1 = 0 := by simp [daysBeforeMonthC]
+  have := monthOfDoy_spec (yearOfDay n) 11 1 (n - daysBeforeYearC (yearOfDay n)) (by omega) (by omega)
+    (by omega) (by omega)
+  simp only [civil, dayNumC]
+  omega
+
+theorem dayNum_eq_C (a m d : Int) (h1 : 1 ≤ m) (h12 : m ≤ 12) : dayNum a m d = dayNumC a m d := by
+  simp only [dayNum, dayNumC, daysBeforeYear_eq_C, daysBeforeMonth_eq_C a m h1 h12]
+
+theorem daysBeforeMonthC_le_of_lt (a : Int) (k : Nat) : ∀ m : Int, 1 ≤ m → m + 1 + k ≤ 12 →
+    daysBeforeMonthC a m + monthLen a m ≤ daysBeforeMonthC a (m + 1 + k) := by
+  induction k with
+  | zero => intro m h1 h; have := daysBeforeMonthC_succ a m h1 (by omega); simp; omega
+  | succ k ih =>
+    intro m h1 h
+    have := ih m h1 (by omega)
+    have hs := daysBeforeMonthC_succ a (m + 1 + k) (by omega) (by omega)
+    have := monthLen_pos a (m + 1 + k)
+    have e : m + 1 + ((k + 1 : Nat) : Int) = m + 1 + k + 1 := by push_cast; omega
+    rw [e]; omega
+
+theorem daysBeforeMonthC_lt (a m m' : Int) (h1 : 1 ≤ m) (h : m < m') (h12 : m' ≤ 12) :
+    daysBeforeMonthC a m + monthLen a m ≤ daysBeforeMonthC a m' := by
+  have := daysBeforeMonthC_le_of_lt a (m' - m - 1).toNat m h1 (by omega)
+  have e : m + 1 + ((m' - m - 1).toNat : Int) = m' := by omega
+  rwa [e] at this
+
+/-- a calendar date is determined by its day number -/
+theorem dayNumC_inj {a m d a' m' d' : Int}
+    (hm : 1 ≤ m ∧ m ≤ 12) (hd : 1 ≤ d ∧ d ≤ monthLen a m)
+    (hm' : 1 ≤ m' ∧ m' ≤ 12) (hd' : 1 ≤ d' ∧ d' ≤ monthLen a' m')
+    (h : dayNumC a m d = dayNumC a' m' d') : a = a' ∧ m = m' ∧ d = d' := by
+  have b1 : daysBeforeMonthC a m + monthLen a m ≤ yearLen a := by
+    by_cases h12 : m = 12
+    · subst h12; exact Int.le_of_eq (daysBeforeMonthC_13 a)
+    · have := daysBeforeMonthC_lt a m 12 hm.1 (by omega) (by omega)
+      have := daysBeforeMonthC_13 a; have := monthLen_pos a 12; omega
+  have b2 : daysBeforeMonthC a' m' + monthLen a' m' ≤ yearLen a' := by
+    by_cases h12 : m' = 12
+    · subst h12; exact Int.le_of_eq (daysBeforeMonthC_13 a')
+    · have := daysBeforeMonthC_lt a' m' 12 hm'.1 (by omega) (by omega)
+      have := daysBeforeMonthC_13 a'; have := monthLen_pos a' 12; omega
+  have n1 := daysBeforeMonthC_nonneg a m
+  have n2 := daysBeforeMonthC_nonneg a' m'
+  have s1 := daysBeforeYearC_succ a
+  have s2 := daysBeforeYearC_succ a'
+  unfold dayNumC at h
+  have ha : a = a' := by
+    rcases Int.lt_trichotomy a a' with hlt | heq | hgt
+    · have := daysBeforeYearC_mono (show a + 1 ≤ a' by omega); omega
+    · exact heq
+    · have := daysBeforeYearC_mono (show a' + 1 ≤ a by omega); omega
+  subst ha
+  have hmm : m = m' := by
+    rcases Int.lt_trichotomy m m' with hlt | heq | hgt
+    · have := daysBeforeMonthC_lt a m m' hm.1 hlt hm'.2; omega
+    · exact heq
+    · have := daysBeforeMonthC_lt a m' m hm'.1 hgt hm.2; omega
+  subst hmm
+  exact ⟨rfl, rfl, by omega⟩
+
+/-- valid values with the same timezone and the same instant are equal -/
+theorem instant_inj {v w : Val} (hv : v.Valid) (hw : w.Valid) (htz : v.tz = w.tz)
+    (h : v.instant = w.instant) : v = w := by
+  obtain ⟨y, m, d, u, z⟩ := v
+  obtain ⟨y', m', d', u', z'⟩ := w
+  simp only [Val.Valid] at hv hw
+  simp only at htz
+  subst htz
+  simp only [Val.instant, Val.localT] at h
+  rw [dayNum_eq_C _ _ _ hv.1 hv.2.1, dayNum_eq_C _ _ _ hw.1 hw.2.1] at h
+  simp only [US] at h hv hw
+  have hday : dayNumC y m d = dayNumC y' m' d' := by omega
+  have := dayNumC_inj ⟨hv.1, hv.2.1⟩ ⟨hv.2.2.1, hv.2.2.2.1⟩ ⟨hw.1, hw.2.1⟩ ⟨hw.2.2.1, hw.2.2.2.1⟩ hday
+  obtain ⟨rfl, rfl, rfl⟩ := this
+  have : u = u' := by omega
+  subst this; rfl
+
 end EPV.Timeline
